@@ -149,6 +149,11 @@ class Check:
                                         indent=1, default=str))
                 lines.append("VIOLATION property=%s replay=%s" % (self.pid, p))
             self.cov["violation_classes"] = len(seen)
+            if os.environ.get("VERIF_VERBOSE"):
+                import collections
+                cl = collections.Counter(json.dumps({k: v for k, v in x["sig"].items() if k in ("clause", "ops", "F", "exp", "got", "stmt_ops")}, sort_keys=True, default=str) for x in self.violations)
+                for k, n in cl.most_common(25):
+                    print("  class x%d: %s" % (n, k))
         for fid, (f, n) in sorted(self.known_hits.items()):
             lines.append("KNOWN-FINDING: property=%s %s: %s (observed %d times)" % (self.pid, fid, f["what"], n))
         ev = {"property_id": self.pid, "tier": self.tier, "seed": self.seed, "level": self.level,
